@@ -32,4 +32,5 @@ void harness(void) {
   CG_ENTRY_STATE(1);
   (void)verif_val(0); (void)cg_holds(n.ty, 0); (void)cg_x87_delta(n.ty);
   gen_expr(&n);
+  REACH("gen_expr returns");
 }
